@@ -365,6 +365,11 @@ func genAtom(t *rapid.T) AtomCase {
 					cmds = append(cmds, kit.MkCmd("GET", gen.Pick(t, "rk", "a", "b", "c")))
 				}
 			case "rename":
+				if rapid.IntRange(0, 5).Draw(t, "ex") == 0 {
+					// a key that exists before and after a RENAME onto it exists at every moment in between
+					cmds = append(cmds, kit.MkCmd("EXISTS", gen.Pick(t, "ek", "a", "b")))
+					break
+				}
 				switch rapid.IntRange(0, 4).Draw(t, "op") {
 				case 0:
 					if rapid.IntRange(0, 5).Draw(t, "same") == 0 {
